@@ -27,6 +27,10 @@ type caseC01 = buildCase
 // checkC01 is the pure oracle. It returns the frame (for statistics), a
 // root-cause signature and a message; msg == "" means the property held.
 func checkC01(c caseC01) (m model.Packet, frame []byte, sig, msg string) {
+	guard.SetCurrent(func() []byte {
+		return mustJSON(vf.Failure{Property: "C01", Kind: "hang", Case: mustJSON(c), Signature: "hang", Message: "a library call made for this case did not return"})
+	})
+	defer guard.SetCurrent(nil)
 	var built mq.ControlPacket
 	var berr error
 	if pan := guard.Call(func() { built, m, berr = c.build() }); pan != nil {
